@@ -258,12 +258,19 @@ def rand_qprog(rng, binary, depth=0, maxdepth=4):
     for _ in range(nrows):
         toks, texp, bexp = rand_row(rng, cs, binary)
         rows.append(bexp if binary else texp)
-        if rng.random() < 0.5 or ncols == 0:
+        z = rng.random()
+        if z < 0.45 or ncols == 0:
             parts.append("wr %d %s p" % (len(toks), " ".join(toks)) if toks else "wr 0 p")
-        else:
+        elif z < 0.8 or ncols < 2:
             for t in toks:
                 parts.append("wc %s p" % t)
             parts.append("er p")
+        else:
+            # a row begun cell by cell and completed by write_row
+            j = rng.randint(1, ncols - 1)
+            for t in toks[:j]:
+                parts.append("wc %s p" % t)
+            parts.append("wr %d %s p" % (ncols - j, " ".join(toks[j:])))
     # possibly a last row left open (auto-ended by finish / drop)
     if ncols and rng.random() < 0.2:
         toks, texp, bexp = rand_row(rng, cs, binary)
